@@ -214,6 +214,14 @@ def h_missing_attempt(E, kind):
         from mitxgraders import StringGrader
         g = StringGrader(attempt_based_credit=LinearCredit())
         call = lambda: g('cat', 'cat')   # noqa
+    elif kind == 'after-a-call-with-attempt':
+        g = TG(answers='e0', attempt_based_credit=LinearCredit())
+        g(None, 's0', attempt=3)
+        call = lambda: g(None, 's0')   # noqa  (the attempt of an earlier call must not be remembered)
+    elif kind == 'list-after-a-call-with-attempt':
+        g = ListGrader(answers=['e0', 'e1'], subgraders=TG(), attempt_based_credit=LinearCredit())
+        g(None, ['s0', 's1'], attempt=1)
+        call = lambda: g(None, ['s0', 's1'])   # noqa
     elif kind == 'attempt-None':
         g = TG(answers='e0', attempt_based_credit=LinearCredit())
         call = lambda: g(None, 's0', attempt=None)   # noqa
@@ -272,7 +280,7 @@ def harnesses(tier):
         add(h_apply_list, 'apply_list', dict(credit=ci, n=2, ordered=True, debug=True), 'debug log switched on: the note survives next to the log')
     for kind in ('single', 'list'):
         add(h_note_attempt, 'note_attempt', dict(kind=kind), 'attempt -3..4, schedule value 0.5 at every attempt, grades in (0,1]')
-    for kind in ('single', 'list', 'single-inferred-answer', 'string-inferred-answer', 'attempt-None'):
+    for kind in ('single', 'list', 'single-inferred-answer', 'string-inferred-answer', 'attempt-None', 'after-a-call-with-attempt', 'list-after-a-call-with-attempt'):
         add(h_missing_attempt, 'missing_attempt', dict(kind=kind), 'no attempt passed')
     for sn in ('linear', 'geometric', 'reciprocal'):
         for att in (1, 2, 3, 4, 5, 9, 0, -4):
